@@ -61,7 +61,17 @@ func (vs *vSess) loop() {
 			vs.mu.Unlock()
 		case topic := <-s.detach:
 			s.delSub(topic)
-		case <-s.stop:
+		case data := <-s.stop:
+			// hdl_websock.go writeLoop: the stop payload (e.g. the eviction notice) is written to the
+			// socket, whatever is still queued on s.send is NOT; record it as the session's last frame
+			if b, ok := data.([]byte); ok && len(b) > 0 {
+				var m ServerComMessage
+				if json.Unmarshal(b, &m) == nil {
+					vs.mu.Lock()
+					vs.frames = append(vs.frames, &m)
+					vs.mu.Unlock()
+				}
+			}
 			close(vs.done)
 			return
 		}
